@@ -1,7 +1,7 @@
 (* Pinned statements of C05 (generated once by tools/mkpins.py from coq/props/C05.v, then committed). *)
 From DV Require Import Model.Base Model.Parser Model.Header Model.Readers Model.Uncompress
   Spec.NameSpec Spec.PacketSpec Spec.RecordSpec Spec.PlainSpec
-  Proofs.Hoare Proofs.UncompressFrame Proofs.QuestionSpec Proofs.UncompressSpec props.C05.
+  Proofs.Hoare Proofs.UncompressFrame Proofs.QuestionSpec Proofs.UncompressSpec Proofs.PlainWf props.C05.
 Check (C05_header_kept : forall (p : bytes) (off : nat) (out : bytes) (o : nat),
   uncompress_with_previous_offset p off = Ok (out, o) ->
   firstn 12 out = firstn 12 p /\ 12 <= length out).
@@ -15,5 +15,18 @@ Check (C05_uncompress_is_plain_encoding : forall p v, bytes_ok p -> parse p = Ok
     records_at p (qe + 4) (map fst lxa) e1 /\ records_at p e1 (map fst lxn) e2 /\
     records_at p e2 (map fst lxr) (length p) /\
     Forall (fun rx => rdata_at p (fst rx) (snd rx)) (lxa ++ lxn ++ lxr) /\
+    hdr_ancount p = Ok (N.of_nat (length lxa)) /\ hdr_nscount p = Ok (N.of_nat (length lxn)) /\
+    hdr_arcount p = Ok (N.of_nat (length lxr)) /\
     uncompress p = Ok (firstn 12 p ++ plain_question qls qt CLASS_IN ++ concat (map plain_record (lxa ++ lxn ++ lxr)))).
 Print Assumptions C05_uncompress_is_plain_encoding.
+Check (C05_roundtrip : forall p v, bytes_ok p -> parse p = Ok v ->
+  exists q v' qls qt lxa lxn lxr lxa' lxn' lxr',
+    uncompress p = Ok q /\ bytes_ok q /\ parse q = Ok v' /\ uncompress q = Ok q /\
+    reading p qls qt lxa lxn lxr /\ reading q qls qt lxa' lxn' lxr' /\
+    map plain_record lxa' = map plain_record lxa /\ map plain_record lxn' = map plain_record lxn /\
+    map plain_record lxr' = map plain_record lxr).
+Print Assumptions C05_roundtrip.
+Check (C05_reading_unique : forall p qls qt lxa lxn lxr qls' qt' lxa' lxn' lxr',
+  reading p qls qt lxa lxn lxr -> reading p qls' qt' lxa' lxn' lxr' ->
+  qls = qls' /\ qt = qt' /\ lxa = lxa' /\ lxn = lxn' /\ lxr = lxr').
+Print Assumptions C05_reading_unique.
